@@ -79,6 +79,9 @@ def cases(draw):
     return {'names': names, 'params': params, 'columns': list(colnames), 'perm': list(perm), 'nfilt': nfilt,
             'perm2': list(draw(st.permutations(list(range(nmod))))) if draw(st.booleans()) else None,
             'col_format': draw(st.sampled_from(['D', 'D', 'E'])),
+            # parameters= of extract_parameters: 'all' or an explicit list (a subset, in any order, with or without MODEL_NAME)
+            'ex_parameters': draw(st.one_of(st.none(), st.permutations(list(colnames) + ['MODEL_NAME']).map(
+                lambda p: list(p)[:max(1, (len(p) * 2) // 3)]))),
             'records': recs, 'selector': sel, 'additional': additional, 'input': form_in,
             'name_width': draw(st.sampled_from([30, 30, 12]))}
 
@@ -266,8 +269,12 @@ def run_case(case, ctx):
         # ---------------------------------------------------------------- extract_parameters
         prefix = os.path.join(d, 'ex_')
         with must_succeed('extract_parameters'), quiet():
+            exkw = {}
+            if case.get('ex_parameters'):
+                exkw['parameters'] = list(case['ex_parameters'])
+                labels.add('explicit_parameter_list')
             extract_parameters(input=fresh_inputs(case, infos, d, 'ex'), output_prefix=prefix, output_suffix='.txt',
-                               select_format=tuple(sel))
+                               select_format=tuple(sel), **exkw)
         for e in expected:
             path = prefix + e['name'] + '.txt'
             if not os.path.exists(path):
@@ -292,7 +299,10 @@ def run_case(case, ctx):
                 if 'MODEL_NAME' in cp and tok[cp['MODEL_NAME']] != k[0]:
                     fail('extract_parameters: row %d of %s is %s in the ranking but shows %s' % (
                         rank + 1, e['name'], k[0], tok[cp['MODEL_NAME']]), 'c09:ex_order')
-                for c in case['columns']:
+                wanted = case['columns'] if not case.get('ex_parameters') else [c for c in case['ex_parameters'] if c != 'MODEL_NAME']
+                if case.get('ex_parameters') and head[3:] != list(case['ex_parameters']):
+                    fail('extract_parameters(parameters=%r): header lists %r' % (case['ex_parameters'], head[3:]), 'c09:ex_header')
+                for c in wanted:
                     if c not in cp:
                         fail('extract_parameters: column %s missing' % c, 'c09:ex_header')
                     got = tofloat(tok[cp[c]])
